@@ -804,6 +804,12 @@ class C12(Prop):
                 qs += [["prefixsteps", p], ["natab", ["prefix", p], H], ["natab", ab, H]]
                 meta.append(("pconv", base, ab, hz, H))
             ctx.dist("conversion", how)
+        # witnesses of the repaired defect (fixed: 5ca7197): sources with three or more simultaneous arrivals
+        for ab, conv, H in ((["sporadic", 19, 40], ["from_ab_until", ["sporadic", 19, 40], 10], 80), (["sporadic", 3, 7], ["from_ab", ["sporadic", 3, 7], 3], 40),
+                            (["sporadic", 5, 10], ["from_ab", ["sporadic", 5, 10], 2], 40), (["sporadic", 3, 7], ["from_ab_until", ["sporadic", 3, 7], 0], 40)):
+            base = len(qs)
+            qs += [["curvevec", conv], ["natab", ["curve", conv], H], ["natab", ab, H]]
+            meta.append(("conv", base, ab, conv[0], H))
         for _ in range(ctx.scale(100, 1200)):
             ab = gen.gen_ab(rng, rng.choice([0, 1]), ["periodic", "sporadic", "curve", "extrap", "propagated", "jitter", "sum"], True, False)
             K = rng.randint(3, 12)
@@ -942,6 +948,8 @@ class C13(Prop):
         finalize(ctx)
 KNOWN_PREDICATES["C13-beyond-horizon"] = lambda v: v.get("cls") == "oracle:raises_beyond_horizon"
 KNOWN_PREDICATES["C12-zero-last"] = lambda v: v.get("cls") == "oracle:conv_zero_last"
+# C17: ECRTS'19 timer / polling-point / chain with a NON-SCALAR own cost model: raising one frame's WCET lowers the bound
+KNOWN_PREDICATES["C17-least-wcet"] = lambda v: v.get("cls") in ("oracle:monotone:pp:frame+", "oracle:monotone:timer:frame+", "oracle:monotone:chain:frame+")
 KNOWN_PREDICATES["C14-beyond-extrapolated"] = lambda v: v.get("cls") == "oracle:extrap_raises_beyond"
 KNOWN_PREDICATES["C12-plateau-at-last"] = lambda v: v.get("cls") == "oracle:conv_inexact:plateau_at_last"
 
@@ -1489,13 +1497,24 @@ def harden_query(q, rng):
         if r < 0.75: h[2] = ["agg", q[2][1] + [extra()]]; return h, "add_callback"
         i = rng.randrange(len(q[2][1])); h[2][1][i], how = harden_rb(q[2][1][i], rng); return h, how
     if k in ("timer", "pp"):
-        if k == "timer" and r < 0.6: h[4] += rng.randint(1, 4); return h, "blocking+"
-        if r < 0.8: h[3] = ["agg", q[3][1] + [extra()]]; return h, "add_callback"
+        if k == "timer" and r < 0.58: h[4] += rng.randint(1, 4); return h, "blocking+"
+        if r < 0.7: h[3] = ["agg", q[3][1] + [extra()]]; return h, "add_callback"
+        if r < 0.85 and q[2][2][0] == "scalar": h[2], how = harden_rb(q[2], rng); return h, "own:" + how
         if q[3][1]:
             i = rng.randrange(len(q[3][1])); h[3][1][i], how = harden_rb(q[3][1][i], rng); return h, "intf:" + how
         h[3] = ["agg", [extra()]]; return h, "add_callback"
     if k == "chain":
-        h[5] = ["agg", q[5][1] + [extra()]]; return h, "add_callback"
+        scalar = q[2][2][0] == "scalar" and all(x[2][0] == "scalar" for x in q[3][1])
+        if r < 0.7 or not scalar: h[5] = ["agg", q[5][1] + [extra()]]; return h, "add_callback"
+        if r < 0.8:        # a larger WCET of the last callback or of a prefix callback
+            pre = h[3][1]
+            if pre and rng.random() < 0.5:
+                i = rng.randrange(len(pre)); pre[i] = ["rbf", pre[i][1], ["scalar", pre[i][2][1] + rng.randint(1, 3)]]
+            else: h[2] = ["rbf", q[2][1], ["scalar", q[2][2][1] + rng.randint(1, 3)]]
+            h[4] = ["agg", h[3][1] + [h[2]]]; return h, "chain:wcet+"
+        ab2, how = harden_ab(q[2][1], rng)          # the source's arrival curve, consistently for every callback of the chain
+        h[2] = ["rbf", ab2, q[2][2]]; h[3] = ["agg", [["rbf", ab2, x[2]] for x in q[3][1]]]; h[4] = ["agg", h[3][1] + [h[2]]]
+        return h, "chain:" + how
     if k in ("rr", "bw"):
         wl = h[2]; eoc = q[3][-1]
         cand = [i for i in range(len(wl)) if i != eoc]
@@ -1538,7 +1557,23 @@ class C17(Prop):
             hard, how = harden_query(base, rng)
             if how == "none": continue
             qs2 += [base, hard]; meta.append(how)
-        rows = rows + ctx.run(qs2, model=False)
+        # non-scalar cost model of the analysed callback in the ECRTS'19 analyses: raising one frame's WCET (known finding
+        # C17-least-wcet: the witnesses first, then random frame vectors)
+        mf = lambda fr: ["rbf", ["periodic", 3], ["multiframe", fr]]
+        intf = ["agg", [["rbf", ["sporadic", 5, 2], ["scalar", 2]]]]
+        chain = lambda fr: ["chain", ["dedicated"], mf(fr), ["agg", []], ["agg", [["agg", []], mf(fr)]], intf, 100]
+        qs3 = [["pp", ["dedicated"], mf([2, 1, 1]), intf, 100], ["pp", ["dedicated"], mf([2, 2, 1]), intf, 100],
+               ["timer", ["dedicated"], mf([2, 1, 1]), intf, 0, 100], ["timer", ["dedicated"], mf([2, 2, 1]), intf, 0, 100],
+               chain([2, 1, 1]), chain([2, 2, 1])]
+        meta += ["frame+"] * 3
+        for _ in range(ctx.scale(150, 2000)):
+            base = families.q_ecrts(rng, rng.choice(["timer", "pp"]), True)[0]
+            fr = [rng.randint(1, 4) for _ in range(rng.randint(2, 3))]
+            fr2 = list(fr); fr2[rng.randrange(len(fr))] += rng.randint(1, 2)
+            hard = [x for x in base]
+            base[2] = ["rbf", base[2][1], ["multiframe", fr]]; hard[2] = ["rbf", base[2][1], ["multiframe", fr2]]
+            qs3 += [base, hard]; meta.append("frame+")
+        rows = rows + ctx.run(qs2, model=False) + ctx.run(qs3[:6]) + ctx.run(qs3[6:], model=False)
         for i, how in enumerate(meta):
             a, b = rows[2 * i], rows[2 * i + 1]
             ctx.dist("hardening", how); ctx.dist("analysis", a[0][0])
@@ -1943,8 +1978,8 @@ class C05(Prop):
             "vector reproduces itself; correspondence two-sided on the final queries; oracle = ROS 2 executor simulation (worst-case and random "
             "budget placement, synchronous and shifted releases): no instance may exceed its self-consistent bound; non-trivial = distinct query "
             "whose result is not Ok(0)")
-    proof_status = ("partial: the semantic soundness of Theorems 2-3 (RTSS'21) is NOT mechanised; proved: exactness of rr/bw w.r.t. their equations "
-                    "(C07), monotonicity of rr (C17), least-solution property of the searches (C08), supply theorems (C09)")
+    proof_status = ("full against the operational executor model Spec/Executor.v: C05_rr_sound (pairwise distinct known priorities), C05_bw_sound "
+                    "(any priority order; exact step enumeration); that rclcpp behaves like the model is modelled, not verified")
     def run(self, ctx):
         rng = ctx.rng
         systems = []
